@@ -53,6 +53,28 @@ var c33Digests = func() []core.Digest {
 	return ds
 }()
 
+// image digests a tag can point to: g0 (= the digest of the plain `exec deps=` form), g1, g2
+var c33Imgs = func() []core.Digest {
+	ds := []core.Digest{c33Digests[3]}
+	for i := 1; i < 3; i++ {
+		d, err := core.NewSHA256DigestFromHex(strings.Repeat(fmt.Sprintf("%02x", 0xb0+i), 32))
+		if err != nil {
+			panic(err)
+		}
+		ds = append(ds, d)
+	}
+	return ds
+}()
+
+func c33ImgTok(d core.Digest) string {
+	for i, x := range c33Imgs {
+		if x == d {
+			return "g" + strconv.Itoa(i)
+		}
+	}
+	return "g?"
+}
+
 func c33DigestTok(hex string) string {
 	for i, d := range c33Digests {
 		if d.Hex() == hex {
@@ -74,6 +96,7 @@ type c33World struct {
 	mu      sync.Mutex
 	scripts map[string][]string // endpoint -> remaining answers
 	log     []string
+	putd    string // the image digest of the last PUT /tags/<tag>/digest/<d> (g<i>)
 }
 
 func (w *c33World) next(ep string) string {
@@ -141,14 +164,24 @@ func c33NewEnv() *c33Env {
 	e.index = httptest.NewServer(http.HandlerFunc(func(rw http.ResponseWriter, r *http.Request) {
 		// the requests must name the task's tag and digest exactly
 		tagPath := "/tags/" + url.PathEscape(c33Tag)
-		putPath := tagPath + "/digest/" + c33Digests[3].String()
 		ep := strings.Replace(r.URL.EscapedPath(), "%3A", ":", -1)
+		putPath, putd := "", ""
+		for _, g := range c33Imgs {
+			if pp := strings.Replace(tagPath+"/digest/"+g.String(), "%3A", ":", -1); pp == ep {
+				putPath, putd = tagPath+"/digest/"+g.String(), c33ImgTok(g)
+			}
+		}
+		if r.Method == "PUT" && putd != "" {
+			e.w.mu.Lock()
+			e.w.putd = putd
+			e.w.mu.Unlock()
+		}
 		switch {
 		case r.Method == "HEAD" && ep == strings.Replace(tagPath, "%3A", ":", -1):
 			c33Answer(rw, e.w.next("has"), "")
 		case r.Method == "GET" && r.URL.Path == "/origin":
 			c33Answer(rw, e.w.next("origin"), "remote-origin")
-		case r.Method == "PUT" && ep == strings.Replace(putPath, "%3A", ":", -1) && r.URL.Query().Get("replicate") == "true":
+		case r.Method == "PUT" && putPath != "" && r.URL.Query().Get("replicate") == "true":
 			c33Answer(rw, e.w.next("put"), "")
 		default:
 			e.w.next("unexpected." + r.Method + r.URL.Path)
@@ -253,46 +286,103 @@ func c33Run(e *c33Env, tr *verifh.T, c verifh.Case) {
 	if _, err := e.db.Exec("DELETE FROM replicate_tag_task"); err != nil {
 		panic(err)
 	}
-	added := false
-	for _, op := range c.Ops {
-		if len(op) != 3 || op[0] != "op" || op[1] != "exec" || !strings.HasPrefix(op[2], "deps=") {
-			continue
+	// the stored task as the store returns it: image digest, dependencies, status
+	stored := func() ([]persistedretry.Task, string) {
+		var ts []persistedretry.Task
+		var rows []string
+		for _, q := range []struct {
+			st  string
+			get func() ([]persistedretry.Task, error)
+		}{{"p", e.store.GetPending}, {"f", e.store.GetFailed}} {
+			if got, err := q.get(); err == nil {
+				for _, t := range got {
+					ts = append(ts, t)
+					x := t.(*tagreplication.Task)
+					var deps []string
+					for _, d := range x.Dependencies {
+						deps = append(deps, c33DigestTok(d.Hex()))
+					}
+					dl := strings.Join(deps, ".")
+					if dl == "" {
+						dl = "none"
+					}
+					rows = append(rows, c33ImgTok(x.Digest)+":"+dl+":"+q.st)
+				}
+			}
 		}
+		return ts, "row=" + verifh.List(rows)
+	}
+	parseDeps := func(tok string) (core.DigestList, bool) {
 		var deps core.DigestList
-		ok := true
-		for _, t := range verifh.Unlist(op[2][5:]) {
+		for _, t := range verifh.Unlist(tok) {
 			d, good := c33Digest(t)
-			ok = ok && good
+			if !good {
+				return nil, false
+			}
 			deps = append(deps, d)
 		}
-		if !ok || len(deps) > 6 {
+		return deps, len(deps) <= 6
+	}
+	add := func(g int, deps core.DigestList, failed bool) string {
+		task := tagreplication.NewTask(c33Tag, c33Imgs[g], deps, c33Addr(e.index), 0)
+		var err error
+		if failed {
+			err = e.store.AddFailed(task)
+		} else {
+			err = e.store.AddPending(task)
+		}
+		switch {
+		case err == nil:
+			return "ok"
+		case err == persistedretry.ErrTaskExists:
+			return "exists"
+		}
+		return "err"
+	}
+	added := false
+	for _, op := range c.Ops {
+		if len(op) < 2 || op[0] != "op" {
+			continue
+		}
+		// add g<i> deps=<list> [st=f]: Add of a replication task for the tag pointing to image g<i>
+		// (st=f: a delayed duplicate, stored as failed)
+		if op[1] == "add" && (len(op) == 4 || len(op) == 5 && op[4] == "st=f") && strings.HasPrefix(op[3], "deps=") &&
+			len(op[2]) == 2 && op[2][0] == 'g' && op[2][1] >= '0' && op[2][1] <= '2' {
+			deps, ok := parseDeps(op[3][5:])
+			if !ok {
+				continue
+			}
+			added = true
+			res := add(int(op[2][1]-'0'), deps, len(op) == 5)
+			_, row := stored()
+			tr.Op(op[1:], res, row)
+			continue
+		}
+		if op[1] != "exec" || !(len(op) == 2 || len(op) == 3 && strings.HasPrefix(op[2], "deps=")) {
 			continue
 		}
 		e.w.mu.Lock()
-		e.w.log = nil
+		e.w.log, e.w.putd = nil, ""
 		e.w.mu.Unlock()
-		// the task goes through the table: added once (first execution of the case), then every
-		// execution — the first one and the retries — runs what GetPending / GetFailed return
-		if !added {
+		// the task goes through the table: `exec deps=` adds it (image g0) when nothing was added in the
+		// case yet; every execution — the first one and the retries — runs what GetPending / GetFailed return
+		if len(op) == 3 && !added {
+			deps, ok := parseDeps(op[2][5:])
+			if !ok {
+				continue
+			}
 			added = true
-			task := tagreplication.NewTask(c33Tag, c33Digests[3], deps, c33Addr(e.index), 0)
-			if err := e.store.AddPending(task); err != nil {
-				tr.PropFail("harness-store", verifh.Str(err.Error()))
+			if add(0, deps, false) != "ok" {
+				tr.PropFail("harness-store", "first_add_refused")
 				continue
 			}
 		}
-		var stored []persistedretry.Task
-		if ts, err := e.store.GetPending(); err == nil {
-			stored = append(stored, ts...)
-		}
-		if ts, err := e.store.GetFailed(); err == nil {
-			stored = append(stored, ts...)
-		}
-		if len(stored) != 1 {
-			tr.Op(op[1:], "gone", "trace=-")
+		ts, _ := stored()
+		if len(ts) != 1 {
+			tr.Op(op[1:], "gone", "trace=-", "putd=-", "row=-")
 			continue
 		}
-		task := stored[0]
+		task := ts[0]
 		var err error
 		if p := verifh.Protect(func() { err = ex.Exec(task) }); p != "" {
 			tr.PropFail("panic", verifh.Str(p))
@@ -305,12 +395,17 @@ func c33Run(e *c33Env, tr *verifh.T, c verifh.Case) {
 		}
 		e.w.mu.Lock()
 		trace := verifh.List(e.w.log)
+		putd := e.w.putd
 		e.w.mu.Unlock()
+		if putd == "" {
+			putd = "-"
+		}
 		r := "ok"
 		if err != nil {
 			r = "err"
 		}
-		tr.Op(op[1:], r, "trace="+trace)
+		_, row := stored()
+		tr.Op(op[1:], r, "trace="+trace, "putd="+putd, row)
 	}
 }
 
@@ -384,6 +479,28 @@ func TestVerif_C33(t *testing.T) {
 			}
 		}
 	}
+	// (a') the tag is overwritten while its replication task is stored: Add(tag, g0, deps0), an execution
+	// that fails (or a delayed duplicate stored as failed), Add(tag, g1, deps1), then the retries — what
+	// is executed and PUT must be one of the tasks as added
+	for _, first := range [][]string{{"op", "add", "g0", "deps=d0"}, {"op", "add", "g0", "deps=d0", "st=f"}, {"op", "add", "g0", "deps=d0,d2"}} {
+		for _, second := range [][]string{{"op", "add", "g1", "deps=d1"}, {"op", "add", "g1", "deps=-"}, {"op", "add", "g0", "deps=d0"}, {"op", "add", "g2", "deps=d1,d0", "st=f"}} {
+			for _, rep0 := range []string{"srv/ok", "ok/ok", "acc/ok/ok"} {
+				for _, put := range []string{"srv/ok", "ok"} {
+					for _, mid := range []bool{true, false} {
+						cfg := []string{"reps=1", "bo=1", "real=1", "has=cli/cli/cli", "origin=ok/ok/ok", "put=" + put,
+							"rep.d0.0=" + rep0, "rep.d1.0=ok/ok", "rep.d2.0=ok/ok"}
+						ops := [][]string{first}
+						if mid {
+							ops = append(ops, []string{"op", "exec"})
+						}
+						ops = append(ops, second, []string{"op", "exec"}, []string{"op", "exec"}, []string{"op", "add", "g1", "deps=d1"}, []string{"op", "exec"})
+						c33Run(e, tr, verifh.Case{Cfg: cfg, Ops: ops})
+						tr.Count("retag_cases", 1)
+					}
+				}
+			}
+		}
+	}
 	// (b) random: several dependencies (with repeats), 1..3 origins, longer scripts, repeated executions
 	// against the same (consumed) scripts = the retries of the retry manager
 	r := verifh.NewRand(verifh.Seed(), "c33")
@@ -426,8 +543,33 @@ func TestVerif_C33(t *testing.T) {
 		for j := r.Intn(4); j > 0; j-- {
 			deps = append(deps, "d"+strconv.Itoa(r.Intn(3)))
 		}
-		for j := 1 + r.Intn(3); j > 0; j-- {
-			ops = append(ops, []string{"op", "exec", "deps=" + verifh.List(deps)})
+		if r.Chance(1, 3) {
+			// re-tagging: each image has its own dependency list; Adds and executions interleave
+			imgDeps := map[string]string{}
+			for g := 0; g < 3; g++ {
+				var dl []string
+				for j := r.Intn(3); j > 0; j-- {
+					dl = append(dl, "d"+strconv.Itoa(r.Intn(3)))
+				}
+				imgDeps["g"+strconv.Itoa(g)] = verifh.List(dl)
+			}
+			for j := 3 + r.Intn(5); j > 0; j-- {
+				if r.Chance(2, 5) || len(ops) == 0 {
+					g := "g" + strconv.Itoa(r.Intn(3))
+					o := []string{"op", "add", g, "deps=" + imgDeps[g]}
+					if r.Chance(1, 4) {
+						o = append(o, "st=f")
+					}
+					ops = append(ops, o)
+				} else {
+					ops = append(ops, []string{"op", "exec"})
+				}
+			}
+			tr.Count("random_retag_cases", 1)
+		} else {
+			for j := 1 + r.Intn(3); j > 0; j-- {
+				ops = append(ops, []string{"op", "exec", "deps=" + verifh.List(deps)})
+			}
 		}
 		if i < 2 {
 			tr.Sample(fmt.Sprint(cfg, ops))
